@@ -378,6 +378,16 @@ func genToolResult(r *vlib.Rng, ids []string) Block {
 		if r.Bool() {
 			txt = jarr([]string{jobj(r, []kv{{"type", `"text"`}, {"text", jstr(genStr(r, 0, 12))}})})
 		}
+		if r.Chance(1, 4) { // what a screenshot or file-reading tool hands back: text plus an inline image or document
+			data := strings.Repeat(vlib.Pick(r, []string{"iVBORw0KGgo", "JVBERi0xLjQK", "QUJD"}), 1+r.Intn(40))
+			typ := vlib.Pick(r, []string{"image", "document"})
+			mt := map[string]string{"image": "image/png", "document": "application/pdf"}[typ]
+			parts := []string{jobj(r, []kv{{"type", jstr(typ)}, {"source", jobj(r, []kv{{"type", `"base64"`}, {"media_type", jstr(mt)}, {"data", jstr(data)}})}})}
+			if r.Bool() {
+				parts = append([]string{jobj(r, []kv{{"type", `"text"`}, {"text", jstr(genStr(r, 0, 12))}})}, parts...)
+			}
+			txt = jarr(parts)
+		}
 		v, _ := parseJSON(txt)
 		switch v.(type) {
 		case map[string]any, []any:
@@ -1072,10 +1082,26 @@ type env struct {
 	c  *vlib.Cases
 	r  *vlib.Rng
 	tr *anthropic.Translator
+	// tri is the same translator with the request inspector switched on (translators.anthropic.inspector.enabled),
+	// which must not change what goes upstream
+	tri *anthropic.Translator
+	n   int
+	// forceInspector is set by a replay of a case that ran with the inspector on
+	forceInspector *bool
 }
 
 func (e *env) call(body string) (out map[string]any) {
 	impl := map[string]any{}
+	e.n++
+	tr := e.tr
+	insp := e.n%3 == 0
+	if e.forceInspector != nil {
+		insp = *e.forceInspector
+	}
+	if insp && e.tri != nil {
+		tr = e.tri
+	}
+	impl["inspector"] = insp
 	func() {
 		defer func() {
 			if p := recover(); p != nil {
@@ -1083,11 +1109,11 @@ func (e *env) call(body string) (out map[string]any) {
 			}
 		}()
 		req := httptest.NewRequest("POST", "/olla/anthropic/v1/messages", strings.NewReader(body))
-		res, err := e.tr.TransformRequest(context.Background(), req)
+		res, err := tr.TransformRequest(context.Background(), req)
 		if err != nil {
 			impl["ok"] = false
 			impl["err"] = classify(err)
-			impl["error_format_ok"] = errorFormatOK(e.tr, err)
+			impl["error_format_ok"] = errorFormatOK(tr, err)
 			if res != nil {
 				impl["produced_despite_error"] = true
 			}
@@ -1159,6 +1185,11 @@ func main() {
 	tier := vlib.Tier()
 	e := &env{c: vlib.OpenCases("cases.jsonl"), r: vlib.NewRng(vlib.Seed()).Fork(),
 		tr: anthropic.NewTranslator(vlib.QuietLogger(), config.AnthropicTranslatorConfig{Enabled: true, MaxMessageSize: 10 << 20})}
+	if dir, err := os.MkdirTemp(vlib.OutDir(), "inspector"); err == nil {
+		defer os.RemoveAll(dir)
+		e.tri = anthropic.NewTranslator(vlib.QuietLogger(), config.AnthropicTranslatorConfig{Enabled: true, MaxMessageSize: 10 << 20,
+			Inspector: config.InspectorConfig{Enabled: true, OutputDir: dir, SessionHeader: "X-Session-ID"}})
+	}
 	r := e.r
 
 	if p := vlib.ReplayPath(); p != "" {
@@ -1174,6 +1205,11 @@ func main() {
 			fc = doc
 		}
 		body, _ := fc["body"].(string)
+		if im, _ := fc["impl"].(map[string]any); im != nil {
+			if v, ok := im["inspector"].(bool); ok {
+				e.forceInspector = &v
+			}
+		}
 		m := map[string]any{"kind": fc["kind"], "class": "replay", "req": fc["req"], "why": fc["why"], "expect_error": fc["expect_error"], "body": body, "impl": e.call(body)}
 		e.c.Emit(m)
 		e.c.Close(map[string]any{"replay": p})
